@@ -107,6 +107,13 @@ def _driver(cfg, pup_argv, res_fd):
         a[3] |= termios.ICANON | termios.ISIG
         a[0] |= termios.ICRNL
         a[0] &= ~termios.IXON
+        if cfg.get('entry_mode') == 'cbreak':
+            # the application has already put its terminal in single-key mode (ICANON off) - but not raw: CR is still
+            # translated, ^S/^Q and the signal keys are still acted on
+            a[3] &= ~termios.ICANON
+            a[0] |= termios.IXON
+            a[6][termios.VMIN] = 1
+            a[6][termios.VTIME] = 0
         termios.tcsetattr(0, termios.TCSANOW, a)
         before = termios.tcgetattr(0)
         if cfg.get('dead_first'):
@@ -263,7 +270,7 @@ class Session(object):
         t0 = time.time()
         while time.time() - t0 < timeout:
             a = termios.tcgetattr(self.master)
-            if not (a[3] & termios.ICANON):
+            if not (a[3] & termios.ICANON) and not (a[3] & termios.ISIG) and not (a[0] & termios.ICRNL):
                 return True
             time.sleep(0.002)
         return False
